@@ -113,8 +113,23 @@ def run(ctx):
     ctx.trusted = ["rustc nightly MIR"]
     r = ctx.rule("R-TWIN", "twin functions agree on error codes, byte constants and parser-internal callees")
     n = 0
+    workers = lex.seq_workers(lexpr)
+    role = {P + "parse_list": ("value", "list"), P + "parse_list_meta": ("datum", "list"),
+            P + "parse_vector": ("value", "vector"), P + "parse_vector_meta": ("datum", "vector")}
     for a, b in TWINS:
         fa, fb = features(lexpr, a), features(lexpr, b)
+        if (fa is None or fb is None) and a in role and b in role:
+            # the twins may have been merged into one function generic over what is recorded besides the value: both
+            # APIs then run the same code, instantiated differently
+            wa, wb = workers.get(role[a]), workers.get(role[b])
+            if wa is not None and wb is not None and wa[0].path == wb[0].path:
+                n += 1
+                r.ok("%s and its location-tracking twin are one generic function (%s), instantiated with %s / %s" % (
+                    a.rsplit("::", 1)[1], wa[0].path.rsplit("::", 1)[1], wa[1] or "-", wb[1] or "-"), wa[0])
+                continue
+            if wa is not None and wb is not None:
+                a, b = wa[0].path, wb[0].path
+                fa, fb = features(lexpr, a), features(lexpr, b)
         if fa is None or fb is None:
             r.anchor_missing("%s / %s" % (a, b))
             continue
@@ -295,16 +310,23 @@ def close_param(ctx, lexpr, rule=None):
                                           "parameter, in every position (after an element, after a dotted tail)")
     OPT, RES = "std::option::Option", "std::result::Result"
     n = 0
-    for fp in (P + "parse_list", P + "parse_list_meta", P + "parse_vector", P + "parse_vector_meta"):
-        f = lexpr.fn(fp)
+    workers = lex.seq_workers(lexpr)
+    for api, what, fp in (("value", "list", P + "parse_list"), ("datum", "list", P + "parse_list_meta"),
+                          ("value", "vector", P + "parse_vector"), ("datum", "vector", P + "parse_vector_meta")):
+        # the function that parses the contents for that API, found by role (next_value / next_datum hand it the
+        # closing delimiter); the historical name is the fallback
+        f, tyenv = workers.get((api, what), (lexpr.fn(fp), {}))
         if f is None:
             r.anchor_missing(fp)
             continue
         ti = f.param_index("terminator")
         if ti is None:
+            u8s = [i for i in range(1, f.arg_count + 1) if f.local_ty(i) == "u8"]
+            ti = u8s[0] if len(u8s) == 1 else None
+        if ti is None:
             r.violation(fp, "no-terminator-param", "%s has no `terminator` parameter any more" % fp, f.loc())
             continue
-        is_list = "list" in fp
+        is_list = what == "list"
         shapes = [("after an element", [0x61]), ("directly after the opener", [])]
         if is_list:
             shapes.append(("after a dotted tail", [0x61, 0x2E]))
@@ -333,6 +355,7 @@ def close_param(ctx, lexpr, rule=None):
 
                     S = sim.Sim([lexpr], hooks={"call": hook}, inline=lex.worker_inline(lexpr, f),
                                 max_visits=4, max_paths=4000)
+                    S._tyenv = [dict(tyenv)]
                     outs = set()
                     for p in S.run(f, args={ti: term}):
                         if p.end == "return" and isinstance(p.ret, Adt) and p.ret.adt.endswith("Result"):
@@ -362,8 +385,9 @@ def dot_class(ctx, lexpr):
                                 "symbol starting with a dot), for all 256 byte values and end of input")
     OPT, RES = "std::option::Option", "std::result::Result"
     maps = {}
-    for fp, elem in ((P + "parse_list", P + "expect_value"), (P + "parse_list_meta", P + "expect_datum")):
-        f = lexpr.fn(fp)
+    workers = lex.seq_workers(lexpr)
+    for api, fp, elem in (("value", P + "parse_list", P + "expect_value"), ("datum", P + "parse_list_meta", P + "expect_datum")):
+        f, tyenv = workers.get((api, "list"), (lexpr.fn(fp), {}))
         if f is None:
             r.anchor_missing(fp)
             return
@@ -394,6 +418,7 @@ def dot_class(ctx, lexpr):
                 return None
 
             S = sim.Sim([lexpr], hooks={"call": hook}, inline=lex.worker_inline(lexpr, f), max_visits=4, max_paths=4000)
+            S._tyenv = [dict(tyenv)]
             outs = set()
             try:
                 for p in S.run(f, args={f.param_index("terminator") or 2: 0x29}):
